@@ -7,6 +7,7 @@ the correspondence check diffs the two output streams.
 import Std.Data.HashMap
 import SkinnyVerif.Api.FactsBuild
 import SkinnyVerif.Impl.VecExec
+import SkinnyVerif.Api.VecExecM
 import SkinnyVerif.Spec.Skinny
 
 namespace SkinnyVerif.Driver
@@ -67,6 +68,21 @@ def parVecOut (bd : Build) (f : Family) (enc : Bool) (w : World) (h : Option Han
         | .s64, .skinnyKey 32 ks =>
           some (VecExec.par64 b bd.cfg.unaligned enc ks (if enc then ecbEncrypt (ops64 bd.tag) p64 ks else ecbDecrypt (ops64 bd.tag) p64 ks) d)
         | _, _ => none
+      | .error _ => none
+    | _ => none
+  | none => none
+
+/-- the same for `mantis_parallel_ecb_crypt` (`Api/VecExecM.lean`, `C07X_mantis_exec`) -/
+def parVecOutM (bd : Build) (w : World) (h : Option Handle) (tw d : Bytes) : Option Bytes :=
+  match h with
+  | some hd =>
+    match hd.vtable with
+    | .be b =>
+      match w.deref hd.ctx with
+      | .ok (_, a) =>
+        match a.val with
+        | .mantisKey ks => some (VecExecM.parMantis b (opsMantis bd.tag) ks tw d)
+        | _ => none
       | .error _ => none
     | _ => none
   | none => none
@@ -286,7 +302,7 @@ where
       | ["mpar", "crypt"] =>
         match ofHex (if a = "-" then "" else a), ofHex (if b = "-" then "" else b) with
         | some tw, some d => match mantisParCrypt bd st.world (handleOf st n) tw d with
-          | .ok (r, out) => (st, s!"ret={r} out={toHex out}")
+          | .ok (r, out) => (st, s!"ret={r} out={toHex (if r = 1 then (parVecOutM bd st.world (handleOf st n) tw d).getD out else out)}")
           | .error _ => fault
         | _, _ => (st, "bad-op")
       | _ => (st, "bad-op")
